@@ -415,6 +415,9 @@ pub fn run(ctx: &mut Ctx) {
         "a } b and a ) c ( d", "50% of the @milk{1%l} | half", "2 > 1 = true : ok", "x * y + z / w ? no & yes", "Use 3 of them, or 4.5, or 1/2.",
         "end with a marker @", "end with a hash #", "end with a tilde ~", "@ start with a stray marker", "text with \\@escaped and \\{brace\\}",
         "A step.\n\n> A paragraph with @ and # and ~ in it.\n\n= A section = with @ stray\n\nLast @salt{}.", "tab\there @a{1}\tthere", "a  b   c @a{} d",
+        // text values with more than one dash (dates, codes) are no `a-b` range; recipe references are core syntax
+        "Open the @wine{2015-10-03} and add @eggs{1-2-3}.", "Use #tin{20-25-cm} and @x{1 - 2 - handfuls} or @y{1/2-1-2%kg}.",
+        "Serve with @./sauces/Hollandaise{150%g} and @../basics/rice{} or @.\\local\\stock{1%l}.", "Top with @./Pesto{} and more @./Pesto{2%tbsp}.",
     ];
     for (k, t) in STRAY.iter().enumerate() {
         if ctx.mine(k as u64) {
